@@ -29,3 +29,171 @@ def scan_shared_state(ctx):
     for h in hits:
         res["disagreements"].append((0, "A1 source scan: shared mutable state in wow-mpq", h, "none expected"))
     return res
+
+
+# ---------------------------------------------------------------- C12: strace trace refinement + fault enumeration
+TRACED = "openat,open,creat,write,pwrite64,writev,pwritev,lseek,fsync,fdatasync,rename,renameat,renameat2,unlink,unlinkat,ftruncate,close,link,linkat,copy_file_range,sendfile"
+
+
+def _parse_trace(path, sb):
+    """returns list of (name, ordinal_within_name, relevant, abstract_op or None, line)"""
+    fdmap, counts, out, ids = {}, {}, [], {}
+
+    def pid_of(p):
+        if p not in ids:
+            ids[p] = 2 + len([k for k in ids if not k.endswith("/dest.mpq")]) if not p.endswith("/dest.mpq") else 1
+        return ids[p]
+    for line in open(path, errors="replace"):
+        m = re.match(r"^\d+\s+(\w+)\((.*)\)\s+=\s+(-?\d+|\?)", line)
+        if not m:
+            continue
+        name, args, ret = m.group(1), m.group(2), m.group(3)
+        counts[name] = counts.get(name, 0) + 1
+        k = counts[name]
+        rel, op = False, None
+        paths = re.findall(r'"((?:[^"\\]|\\.)*)"', args)
+        if name in ("openat", "open", "creat"):
+            p = paths[0] if paths else ""
+            if p.startswith(sb):
+                rel = True
+                if ret not in ("?",) and int(ret) >= 0:
+                    fdmap[int(ret)] = p
+                op = ("c%d" if ("O_CREAT" in args or name == "creat" or "O_TRUNC" in args) else "o%d") % pid_of(p)
+                if ("O_WRONLY" in args or "O_RDWR" in args) and "O_CREAT" not in args and "O_TRUNC" not in args and p.endswith("/dest.mpq"):
+                    op = "o%d" % pid_of(p)   # destination opened read-write (MutableArchive::open); actual writes are `w`
+        elif name in ("write", "pwrite64", "writev", "pwritev", "lseek", "fsync", "fdatasync", "ftruncate", "close"):
+            fm = re.match(r"(\d+)", args)
+            fd = int(fm.group(1)) if fm else -1
+            if fd in fdmap:
+                rel = True
+                p = fdmap[fd]
+                if name in ("write", "pwrite64", "writev", "pwritev", "ftruncate"):
+                    op = "w%d" % pid_of(p)
+                else:
+                    op = "o%d" % pid_of(p)
+                if name == "close":
+                    del fdmap[fd]
+        elif name in ("rename", "renameat", "renameat2", "link", "linkat"):
+            ps = [p for p in paths if p.startswith(sb)]
+            if len(ps) == 2:
+                rel = True
+                op = "m%d>%d" % (pid_of(ps[0]), pid_of(ps[1]))
+        elif name in ("unlink", "unlinkat"):
+            ps = [p for p in paths if p.startswith(sb)]
+            if ps:
+                rel = True
+                op = "u%d" % pid_of(ps[0])
+        out.append((name, k, rel, op, line.strip()[:160]))
+    return out
+
+
+def c12_driver(ctx):
+    wvh, wvmodel, tier, seed = ctx["wvh"], ctx["wvmodel"], ctx["tier"], ctx["seed"]
+    base = os.path.join(ctx["outdir"], "sb")
+    shutil.rmtree(base, ignore_errors=True)
+    os.makedirs(base)
+    res = {"evals": 0, "nontrivial": 0, "stats": {}, "samples": [], "oracle_fail": [], "disagreements": [], "model_cases": 0}
+    st = res["stats"]
+    OLD = b"OLD-CONTENT-" * 40
+
+    def bump(k, n=1):
+        st[k] = st.get(k, 0) + n
+    configs = [("build", 1, False), ("build", 1, True), ("build", 3, True), ("build", 4, False), ("compact", 1, True), ("compactdirty", 1, True)]
+    if tier == "thorough":
+        configs = [("build", v, pre) for v in (1, 2, 3, 4) for pre in (False, True)] + [("compact", v, True) for v in (1, 2, 3)] + [("compactdirty", v, True) for v in (1, 2)]
+    for ci, (kind, ver, pre) in enumerate(configs):
+        sb = os.path.join(base, "c%d" % ci)
+        dest = os.path.join(sb, "dest.mpq")
+
+        def prepare():
+            shutil.rmtree(sb, ignore_errors=True)
+            os.makedirs(sb)
+            if kind == "compact":
+                subprocess.run([wvh, "fsop", "build", str(ver), dest, str(seed)], stdout=subprocess.DEVNULL)
+                subprocess.run([wvh, "fsop", "remove", dest], stdout=subprocess.DEVNULL)
+                return open(dest, "rb").read()
+            if kind == "compactdirty":
+                subprocess.run([wvh, "fsop", "build", str(ver), dest, str(seed)], stdout=subprocess.DEVNULL)
+                return open(dest, "rb").read()
+            if pre:
+                open(dest, "wb").write(OLD)
+                return OLD
+            return None
+        cmd = [wvh, "fsop", "build", str(ver), dest, str(seed)] if kind == "build" else [wvh, "fsop", kind, dest]
+
+        def state(old):
+            cur = open(dest, "rb").read() if os.path.exists(dest) else None
+            if cur == old:
+                return "old"
+            if cur is None:
+                return "vanished"
+            if kind == "build":
+                ok = subprocess.run([wvh, "fsop", "verify", dest, str(seed)], stdout=subprocess.PIPE, text=True)
+                return "new" if ok.returncode == 0 else "partial:" + ok.stdout.strip()[:80]
+            a = subprocess.run([wvh, "fsop", "verify", dest, str(seed), "2"], stdout=subprocess.PIPE, text=True)
+            if a.returncode == 0:
+                return "new"
+            b = subprocess.run([wvh, "fsop", "verify", dest, str(seed)], stdout=subprocess.PIPE, text=True)
+            return "old-flushed" if b.returncode == 0 else "partial:" + a.stdout.strip()[:80]
+        old = prepare()
+        tr = os.path.join(sb, "trace.txt")
+        p = subprocess.run(["strace", "-f", "-qq", "-o", tr, "-e", "trace=" + TRACED] + cmd, stdout=subprocess.PIPE, text=True)
+        calls = _parse_trace(tr, sb)
+        rel = [c for c in calls if c[2]]
+        ops = [c[3] for c in rel if c[3]]
+        bump("c12.%s.v%d.relevant_calls" % (kind, ver), len(rel))
+        # --- trace refinement: the real system-call trace must have the safe shape (model decides)
+        req = "c12shape 1 %s" % (",".join(ops) if ops else "-")
+        mo = subprocess.run([wvmodel], input=req + "\n", stdout=subprocess.PIPE, text=True).stdout.strip()
+        res["model_cases"] += 1
+        if mo != "safe" and kind != "compactdirty":   # (the dirty variant legitimately flushes the removal in place first)
+            res["disagreements"].append((ci, req[:300], "trace of %s v%d" % (kind, ver), mo))
+        if p.returncode != 0 or state(old) != "new":
+            res["oracle_fail"].append(("baseline-op-failed", "%s v%d pre=%s: exit %d state %s" % (kind, ver, pre, p.returncode, state(old))))
+            continue
+        if len(res["samples"]) < 3:
+            res["samples"].append({"config": "%s v%d preexisting=%s" % (kind, ver, pre), "abstract_trace": ",".join(ops)[:300]})
+        # --- fault enumeration at every relevant call (quick: all open/rename/unlink/fsync, every 2nd write/lseek/close)
+        points = []
+        for i, c in enumerate(rel):
+            if tier == "thorough" or c[0] not in ("write", "lseek", "close") or i % 2 == 0 or i >= len(rel) - 6:
+                points.append(c)
+        first_write = next((i for i, c in enumerate(rel) if c[0] in ("write", "pwrite64")), 0)
+        for c in points:
+            for mode in ("error=ENOSPC", "signal=SIGKILL"):
+                if c[0] == "close" and mode.startswith("error"):
+                    continue
+                old = prepare()
+                inj = "inject=%s:%s:when=%d" % (c[0], mode, c[1])
+                r = subprocess.run(["strace", "-f", "-qq", "-o", "/dev/null", "-e", "trace=" + c[0], "-e", inj] + cmd,
+                                   stdout=subprocess.PIPE, stderr=subprocess.PIPE, text=True)
+                s = state(old)
+                res["evals"] += 1
+                bump("c12.%s.%s" % (mode.split("=")[0], s.split(":")[0]))
+                what = "%s v%d preexisting=%s, %s at %s #%d (%s): exit %d, destination %s" % (kind, ver, pre, mode, c[0], c[1], c[4][:70], r.returncode, s)
+                if rel.index(c) > first_write:
+                    res["nontrivial"] += 1
+                ok_states = ("old", "new") if kind == "build" else ("old", "new", "old-flushed")
+                if s not in ok_states:
+                    res["oracle_fail"].append(("dest-partial-after-" + ("kill" if "KILL" in mode else "io-error"), what))
+                elif mode.startswith("error") and r.returncode == 0 and s != "new":
+                    res["oracle_fail"].append(("reported-ok-but-destination-not-new", what))
+                elif mode.startswith("error") and r.returncode == 1 and s == "new" and kind == "build":
+                    res["oracle_fail"].append(("reported-error-but-destination-replaced", what))
+        # --- write-size limits (RLIMIT_FSIZE with SIGXFSZ ignored: short writes, then EFBIG)
+        for blocks in ([1, 2, 8, 30] if tier == "quick" else [1, 2, 3, 5, 8, 13, 21, 30, 40]):
+            old = prepare()
+            sh = "trap '' XFSZ; ulimit -f %d; exec \"$@\"" % blocks
+            r = subprocess.run(["sh", "-c", sh, "sh"] + cmd, stdout=subprocess.PIPE, stderr=subprocess.PIPE, text=True)
+            s = state(old)
+            res["evals"] += 1
+            res["nontrivial"] += 1
+            bump("c12.fsize_limit.%s" % s.split(":")[0])
+            what = "%s v%d preexisting=%s, file size limit %d bytes: exit %d, destination %s" % (kind, ver, pre, blocks * 512, r.returncode, s)
+            ok_states = ("old", "new") if kind == "build" else ("old", "new", "old-flushed")
+            if s not in ok_states:
+                res["oracle_fail"].append(("dest-partial-under-write-limit", what))
+            elif r.returncode == 0 and s != "new":
+                res["oracle_fail"].append(("reported-ok-but-destination-not-new", what))
+    shutil.rmtree(base, ignore_errors=True)
+    return res
